@@ -41,6 +41,11 @@ func (a *act) callValue(site ssa.CallInstruction, c *ssa.CallCommon, fnVal Val, 
 		if xs := e.externs[cs.name]; xs != nil {
 			return a.applyExtern(xs, c.Signature(), append([]Val{fnVal}, args...), cs, rtyp, site.Pos(), st, reach)
 		}
+		// interface of a side-effect-free library package (context.Context, slog.Handler, ...)
+		if n, ok := c.Value.Type().(*types.Named); ok && n.Obj().Pkg() != nil && pureLibPkgs[n.Obj().Pkg().Path()] {
+			e.cur.externsUsed["pure-library:"+cs.name] = true
+			return a.pureUF(cs.name, append([]Val{fnVal}, args...), rtyp, st), nil
+		}
 		return a.opaque(cs.name, append([]Val{fnVal}, args...), rtyp, st, true), nil
 	}
 	switch v := c.Value.(type) {
